@@ -70,6 +70,17 @@ Theorem right_passphrase_unlocks : forall c, c <> LRaw -> unlock c (Bytes a_pass
 Proof. exact unlock_right. Qed.
 Print Assumptions right_passphrase_unlocks.
 
+(* FRESH NONCES: the encryptions of every run — protections of master keys by any number of lock instances, DEK
+   wrappings, keyset encryptions — never use a (key, nonce) pair twice; the correspondence checks that the
+   implementation's encryptions have the model's keys and the same no-repeat pattern (nonces read from the bytes) *)
+Theorem nonces_never_repeat_under_a_key : forall c nblobs ops, NoDup (enc_events c nblobs ops).
+Proof. intros c nblobs ops. apply discipline_NoDup. apply discipline_number. Qed.
+Print Assumptions nonces_never_repeat_under_a_key.
+
+Theorem nonce_discipline_is_no_repeat : forall l, discipline l = true <-> NoDup l.
+Proof. exact discipline_NoDup. Qed.
+Print Assumptions nonce_discipline_is_no_repeat.
+
 (* what the theorem excludes, shown on the two mutants of the property text: a cleartext keyset, or a DEK wrapped
    under a constant (public) key, in the store makes key material derivable *)
 Theorem cleartext_keyset_would_leak :
